@@ -80,6 +80,27 @@ func (w *Walker) typeAlts(fr *Frame, v ssa.Value, depth int) ([]typeAlt, bool) {
 		return out, len(out) > 0
 	case *ssa.UnOp:
 		if x.Op == token.MUL {
+			// a captured variable: the local of the frame that created the literal
+			if fv, ok := x.X.(*ssa.FreeVar); ok && fr != nil && fr.MC != nil {
+				for i, v := range fv.Parent().FreeVars {
+					if v != fv || i >= len(fr.MC.Bindings) {
+						continue
+					}
+					if a, ok := fr.MC.Bindings[i].(*ssa.Alloc); ok && a.Referrers() != nil {
+						var st *ssa.Store
+						n := 0
+						for _, r := range *a.Referrers() {
+							if s2, ok := r.(*ssa.Store); ok && s2.Addr == ssa.Value(a) {
+								st = s2
+								n++
+							}
+						}
+						if n == 1 {
+							return w.typeAlts(fr.Parent, st.Val, depth+1)
+						}
+					}
+				}
+			}
 			if a, ok := x.X.(*ssa.Alloc); ok && a.Referrers() != nil {
 				var st *ssa.Store
 				n := 0
